@@ -139,3 +139,32 @@ def _setup(b, case):
     return {}
 c.setup(_setup)
 c.ensures('one-consistent-reading', "ghost('clock_readings') == 1 and result[0] is ghost('last_h') and result[1] is ghost('last_m')")
+
+
+# ---- a clock can be started again after a stop (the same ScriptJob runs again): the second run's delays are real delays,
+#      i.e. after start() the clock is going again: either the flag is already set or a NEW ticking thread was started that
+#      sets it (the old one may still be asleep and then ends)
+c = contract(C, 'restart', serves=['C10', 'C09', 'C17'], name='lemma:start(); stop(); start()', src='''
+def restart(clk):
+    clk.start()
+    clk.stop()
+    clk.start()
+    return clk
+''')
+def _setup(b, case):
+    from pyvc.values import Builtin, Opaque, PyList
+    lib.injection_reset(b)
+    started = b.ghost('threads_started', PyList())
+    th = b.module('threading')
+    def thread_ctor(I_, a, k):
+        t = Opaque('Thread', attrs={'target': k.get('target')})
+        t.methods['start'] = lambda I2, o, a2, k2: started.items.append(o)
+        t.methods['is_alive'] = lambda I2, o, a2, k2: I2.fresh('bool', 'old_thread_still_asleep')
+        return t
+    th.ns['Thread'] = Builtin('Thread', thread_ctor)
+    b.module('time').ns['time'] = Builtin('time.time', lambda I_, a, k: I_.fresh('real', 'now'))
+    clk = b.new((C[:-3].replace('/', '.'), 'Clock'))
+    return {'clk': clk}
+c.setup(_setup)
+c.ensures('going-again', "result._keep_going is True or len(ghost('threads_started')) == 2")
+c.ensures('time-line-restarted', 'result._cue_time == 0')
